@@ -29,7 +29,13 @@ class C13(Check):
                 'transfer id; datagrams composed of several messages / padding; MTU below the envelope')
 
     def executions(self, tier, seed):
-        return udpcl_cases.executions(tier, seed)
+        traces, metas = udpcl_cases.executions(tier, seed)
+        # the UDPCL hop of the BP / UDPCL composition: send requests come from a real BP agent through the real
+        # bp.cla adaptor, the receiving adaptor pops what the agent announces
+        from harness.drivers import comp_cases
+        (_xs, us, _ys, cmetas) = comp_cases.executions(tier, seed)
+        self.extra_coverage = {'composition_traces': len(us)}
+        return [('XferObs', traces, metas), ('XferObs', us, [dict(m, hop='udpcl') for m in cmetas])]
 
 
 class C20(Check):
